@@ -38,6 +38,23 @@ class Segs:
         self.parts = list(parts)
 
 
+class FalsyText:
+    """A value that is false but still prints an identifying token (result of a
+    call-numbered callable whose value must be false)."""
+
+    def __init__(self, token):
+        self.token = token
+
+    def __bool__(self):
+        return False
+
+    def __str__(self):
+        return self.token
+
+    def __repr__(self):
+        return 'falsy(%s)' % self.token
+
+
 # ------------------------------------------------------------------ value specs
 class Plain:
     def __init__(self, value):
@@ -47,10 +64,11 @@ class Plain:
 class Call:
     """Callable namespace value; the k-th call returns '<base>#k'."""
 
-    def __init__(self, name, base=None, falsy=False):
+    def __init__(self, name, base=None, falsy=False, ret='text'):
         self.name = name
         self.base = base or name
-        self.falsy = falsy
+        self.falsy = falsy        # the callable object itself is false
+        self.ret = ret            # 'text' | 'falsy': the returned value is false
 
 
 class Raiser:
@@ -61,10 +79,11 @@ class Raiser:
 
 
 class Tmpl:
-    def __init__(self, name, ast, defaults=None):
+    def __init__(self, name, ast, defaults=None, tvars=None):
         self.name = name
         self.ast = ast
         self.defaults = defaults or {}
+        self.tvars = tvars or {}      # variables set on the (sub-)template with .var()
 
 
 class Obj:
@@ -126,10 +145,17 @@ class Let:
 
 
 class If:
-    def __init__(self, name, body, orelse):
+    def __init__(self, name, body, orelse, elifs=()):
         self.name = name
         self.body = body
         self.orelse = orelse
+        self.elifs = list(elifs)      # [(name, body)]
+
+
+class Unless:
+    def __init__(self, name, body):
+        self.name = name
+        self.body = body
 
 
 class Try:
@@ -177,8 +203,11 @@ def to_dtml(ast, syntax='html'):
                          for a, f, s in n.bindings)
             out.append('<dtml-let %s>%s</dtml-let>' % (b, to_dtml(n.body)))
         elif isinstance(n, If):
-            out.append('<dtml-if %s>%s<dtml-else>%s</dtml-if>'
-                       % (n.name, to_dtml(n.body), to_dtml(n.orelse)))
+            mid = ''.join('<dtml-elif %s>%s' % (en, to_dtml(eb)) for en, eb in n.elifs)
+            out.append('<dtml-if %s>%s%s<dtml-else>%s</dtml-if>'
+                       % (n.name, to_dtml(n.body), mid, to_dtml(n.orelse)))
+        elif isinstance(n, Unless):
+            out.append('<dtml-unless %s>%s</dtml-unless>' % (n.name, to_dtml(n.body)))
         elif isinstance(n, Try):
             out.append('<dtml-try>%s<dtml-except>%s</dtml-try>'
                        % (to_dtml(n.body), to_dtml(n.handler)))
@@ -219,13 +248,18 @@ class Model:
         if isinstance(v, Call):
             k = self.count[v.name] = self.count.get(v.name, 0) + 1
             self.trace.append(v.name)
-            return Plain('%s#%d' % (v.base, k))
+            tok = '%s#%d' % (v.base, k)
+            return Plain(FalsyText(tok) if v.ret == 'falsy' else tok)
         if isinstance(v, Raiser):
             self.trace.append(v.name)
             raise ModelRaise(v.etype, v.msg)
         if isinstance(v, Tmpl):
             self.subcalls += 1
-            inner = stack + [dict(v.defaults)] if v.defaults else stack
+            inner = stack
+            if v.defaults:
+                inner = inner + [dict(v.defaults)]
+            if v.tvars:
+                inner = inner + [dict(v.tvars)]
             return Plain(Segs(self.render(v.ast, inner)))
         return v
 
@@ -323,6 +357,22 @@ class Model:
                     d[name] = self.resolve(st, src) if form == 'name' else self.find(st, src)
                 out.extend(self.render(n.body, st))
             elif isinstance(n, If):
+                # "a variable is only evaluated once in an if tag": every tested name
+                # is bound to its (called) value for all sections up to the end tag
+                cache = {}
+                st = stack + [cache]
+                chosen = n.orelse
+                for cname, cbody in [(n.name, n.body)] + n.elifs:
+                    try:
+                        v = self.resolve(st, cname)
+                    except Missing:
+                        continue
+                    cache[cname] = v
+                    if self.truthy(v):
+                        chosen = cbody
+                        break
+                out.extend(self.render(chosen, st))
+            elif isinstance(n, Unless):
                 cache = {}
                 st = stack + [cache]
                 try:
@@ -332,7 +382,8 @@ class Model:
                 else:
                     cache[n.name] = v
                     t = self.truthy(v)
-                out.extend(self.render(n.body if t else n.orelse, st))
+                if not t:
+                    out.extend(self.render(n.body, st))
             elif isinstance(n, Try):
                 try:
                     seg = self.render(n.body, stack)
@@ -362,11 +413,13 @@ class RCall:
         self._name = name
         self._base = base
         self._n = 0
+        self._falsy_result = False
 
     def __call__(self):
         self._n += 1
         self._rec.log('call', self._name)
-        return '%s#%d' % (self._base, self._n)
+        tok = '%s#%d' % (self._base, self._n)
+        return FalsyText(tok) if self._falsy_result else tok
 
     def __str__(self):
         return 'UNCALLED:' + self._name
@@ -448,6 +501,7 @@ class Realizer:
             ob = spec.value
         elif isinstance(spec, Call):
             ob = (RFalsyCall if spec.falsy else RCall)(self.rec, spec.name, spec.base)
+            ob._falsy_result = spec.ret == 'falsy'
             reg = 'obj:' + spec.name
         elif isinstance(spec, Raiser):
             ob = RRaise(self.rec, spec.name, spec.etype, spec.msg)
@@ -455,6 +509,8 @@ class Realizer:
         elif isinstance(spec, Tmpl):
             ob = self.tmpl_class(to_dtml(spec.ast),
                                  **dict((k, self.real(v)) for k, v in spec.defaults.items()))
+            if spec.tvars:
+                ob.var(**dict((k, self.real(v)) for k, v in spec.tvars.items()))
             reg = 'obj:' + spec.name
         elif isinstance(spec, Obj):
             ob = RObj(spec.name)
